@@ -400,6 +400,10 @@ def standin_sum(tier, seed):
             check(libname, lib, dict(zip(keys, counts)), 'rand%d' % r)
             # same key set, other counts, same library object
             check(libname, lib, dict(zip(keys, [c * 0.5 + 1 for c in counts])), 'rand%db' % r)
+            if r < 3:
+                # counts that hash alike in CPython (hash(-1) == hash(-2)) and counts that compare equal across types (1, 1.0, True), one mapping after the other
+                for tag2, cs in (('m1', -1), ('m2', -2), ('one', 1), ('onef', 1.0), ('two', 2)):
+                    check(libname, lib, {k_: cs for k_ in keys}, 'rand%d%s' % (r, tag2))
         # missing data: exactly the descriptors without the property set must be named
         lack = ['NoSuch(X)', 'Other(Y)2']
         keys = rnd.sample(gs, min(3, len(gs)))
